@@ -31,6 +31,9 @@ pub struct SchedKnobs {
     pub strategy: u8,
     pub yield_every: u32,
     pub jumps: Vec<(u64, u64)>,
+    /// (task selector, polls): hand that task's future to another waker after so many polls
+    #[serde(default)]
+    pub migrate: Option<(u32, u32)>,
 }
 
 impl SchedKnobs {
@@ -47,10 +50,12 @@ impl SchedKnobs {
             }
             jumps.sort();
         }
+        let migrate = if rng.chance(1, 6) { Some((rng.below(12) as u32, rng.range(1, 3) as u32)) } else { None };
         SchedKnobs {
             strategy,
             yield_every,
             jumps,
+            migrate,
         }
     }
     pub fn cfg(&self, ctx: &RunCtx, horizon_ms: u64, tail_ms: u64) -> SimCfg {
@@ -62,6 +67,7 @@ impl SchedKnobs {
             yield_every: self.yield_every.min(8),
             jumps: self.jumps.clone(),
             rt_seed: ctx.rt_seed,
+            migrate: self.migrate.map(|(a, b)| (a % 64, b.clamp(1, 8))),
         }
     }
     pub fn total_jump(&self) -> u64 {
